@@ -113,7 +113,91 @@ package httpgen
 //@   ensures err == nil ==> spec.AllOK_emptyBehavior(file.Messages)
 
 //@ func (g *Generator) generateTimestampFormatEncodingFile(file *protogen.File) (err error)
+//@   modifies *
 //@   ensures err == nil ==> spec.AllOK_timestampFormat(file.Messages)
+// the timestamp_format file imports time (writeTimestampFormatImports) only together with a line that uses it (C13)
+//@   at-call writeTimestampFormatImports requires once: count("writeTimestampFormatImports") == old(count("writeTimestampFormatImports"))
+//@   ensures time_import_used: count("writeTimestampFormatImports") > old(count("writeTimestampFormatImports")) ==> count("P:time.") > old(count("P:time."))
+//@   loop 1 invariant count("P:time.") >= old(count("P:time.")) && (_i1 > 0 ==> count("P:time.") > old(count("P:time.")))
+
+//@ func collectEnumsFromMessage(msg *protogen.Message, contexts *[]*EnumEncodingContext, seen map[string]bool)
+//@   modifies contexts
+//@   decreases spec.mdepth(msg)
+
+// whether a root-unwrap map's value message is itself unwrapped (the combined form {"k": [...]}) is a property of that
+// value message alone - decided by its own annotation, wherever it is declared - not of the table of this invocation
+//@ func collectRootUnwrapMessages(messages []*protogen.Message, unwrapMessages map[string]*annotations.UnwrapFieldInfo, ctx *UnwrapContext)
+//@   requires ctx != nil
+//@   modifies ctx
+//@   decreases spec.depth(messages)
+//@   ensures only_appends: len(ctx.RootUnwrapMessages) >= old(len(ctx.RootUnwrapMessages)) && (forall k int :: 0 <= k && k < old(len(ctx.RootUnwrapMessages)) ==> ctx.RootUnwrapMessages[k] == old(ctx.RootUnwrapMessages[k]))
+//@   ensures value_unwrap_by_annotation: forall k int :: old(len(ctx.RootUnwrapMessages)) <= k && k < len(ctx.RootUnwrapMessages) ==> ctx.RootUnwrapMessages[k] != nil && (ctx.RootUnwrapMessages[k].ValueMessage != nil ==> ((ctx.RootUnwrapMessages[k].ValueUnwrap != nil) <==> spec.hasValidUnwrap(ctx.RootUnwrapMessages[k].ValueMessage)))
+//@   loop 1 invariant len(ctx.RootUnwrapMessages) >= old(len(ctx.RootUnwrapMessages)) && (forall k int :: 0 <= k && k < old(len(ctx.RootUnwrapMessages)) ==> ctx.RootUnwrapMessages[k] == old(ctx.RootUnwrapMessages[k]))
+//@   loop 1 invariant forall k int :: old(len(ctx.RootUnwrapMessages)) <= k && k < len(ctx.RootUnwrapMessages) ==> ctx.RootUnwrapMessages[k] != nil && (ctx.RootUnwrapMessages[k].ValueMessage != nil ==> ((ctx.RootUnwrapMessages[k].ValueUnwrap != nil) <==> spec.hasValidUnwrap(ctx.RootUnwrapMessages[k].ValueMessage)))
+
+//@ func collectUnwrapFieldsRecursive(messages []*protogen.Message, result map[string]*annotations.UnwrapFieldInfo) (err error)
+//@   decreases spec.depth(messages)
+
+//@ func findMapFieldsWithUnwrap(messages []*protogen.Message, unwrapMessages map[string]*annotations.UnwrapFieldInfo, ctx *UnwrapContext)
+//@   modifies ctx
+//@   decreases spec.depth(messages)
+
+//@ func (g *Generator) collectMessageFieldExamples(gf *protogen.GeneratedFile, message *protogen.Message, prefix string)
+//@   decreases spec.mdepth(message)
+
+// on-stack set of message types being expanded: a nested call sees a strictly larger set (finitely many full
+// names exist), and every call restores the set it was given
+//@ func (g *Generator) generateMockFieldAssignments(gf *protogen.GeneratedFile, message *protogen.Message, varName string, visiting map[string]bool)
+//@   requires message != nil
+//@   modifies *, visiting
+//@   decreases 2*spec.remainingB(visiting) + 1
+//@   ensures restored: forall s string :: (inDom(visiting, s) && visiting[s]) <==> (inDom(old(visiting), s) && old(visiting)[s])
+//@   ensures measure: spec.remainingB(visiting) == spec.remainingB(old(visiting))
+//@   loop 1 invariant forall s string :: (inDom(visiting, s) && visiting[s]) <==> (s == key || (inDom(old(visiting), s) && old(visiting)[s]))
+//@   loop 1 invariant spec.remainingB(visiting) < spec.remainingB(old(visiting))
+
+//@ func (g *Generator) generateMockMapFieldAssignment(gf *protogen.GeneratedFile, field *protogen.Field, varName string, visiting map[string]bool)
+//@   requires field != nil && field.Message != nil && field.Desc.IsMap()
+//@   modifies *, visiting
+//@   decreases 2*spec.remainingB(visiting) + 2
+//@   ensures restored: forall s string :: (inDom(visiting, s) && visiting[s]) <==> (inDom(old(visiting), s) && old(visiting)[s])
+//@   ensures measure: spec.remainingB(visiting) == spec.remainingB(old(visiting))
+
+// ---- the unwrap table is only a cache (C15): which map fields get unwrap code depends on the definitions of the
+// value messages alone, not on which files were scanned into the table ----
+
+//@ func getMapValueMessage(field *protogen.Field) (r *protogen.Message)
+//@   pure
+//@   existing
+
+//@ func collectUnwrapMapFields(msg *protogen.Message, unwrapMessages map[string]*annotations.UnwrapFieldInfo) (r []*UnwrapMapField)
+//@   requires msg != nil
+//@   opaque annotations.GetUnwrapField
+//@   ensures count_whatever_the_table: spec.tableSound(unwrapMessages) ==> len(r) == spec.countUnwraps(msg, len(msg.Fields))
+//@   ensures sound_whatever_the_table: spec.tableSound(unwrapMessages) ==> (forall j int :: 0 <= j && j < len(r) ==> r[j] != nil && member(msg.Fields, r[j].Field) && spec.unwrapsMapValue(r[j].Field))
+//@   loop 1 invariant spec.tableSound(unwrapMessages) ==> len(mapFields) == spec.countUnwraps(msg, _i1)
+//@   loop 1 invariant spec.tableSound(unwrapMessages) ==> (forall j int :: 0 <= j && j < len(mapFields) ==> mapFields[j] != nil && member(msg.Fields, mapFields[j].Field) && spec.unwrapsMapValue(mapFields[j].Field))
+
+// ---- per-route parameter tables (C02): one QueryParamConfig line per query-annotated field of every method's request,
+// whatever the field's kind or cardinality (the emitted binder handles lists) ----
+//@ func (g *Generator) generateParamConfigs(gf *protogen.GeneratedFile, service *protogen.Service) (err error)
+//@   requires service != nil
+//@   modifies *
+//@   ensures every_query_field_listed: count("P:{QueryName: ") == old(count("P:{QueryName: ")) + spec.totalQueryParams(service.Methods, len(service.Methods))
+//@   loop 1 invariant count("P:{QueryName: ") == old(count("P:{QueryName: ")) + spec.totalQueryParams(service.Methods, _i1)
+//@   loop 2 invariant count("P:{QueryName: ") == old(count("P:{QueryName: ")) + spec.totalQueryParams(service.Methods, _i1)
+//@   loop 3 invariant count("P:{QueryName: ") == old(count("P:{QueryName: ")) + spec.totalQueryParams(service.Methods, _i1) + _i3 && len(queryParams) == len(annotations.GetQueryParams(service.Methods[_i1].Input))
+
+// ---- the registered route is the decided route (C03/C01: dataflow from the deciding functions to the emitted text) ----
+// every RPC gets exactly one mux.Handle line, and its pattern is "<verb> <path>" with the verb and path the deciding
+// functions return for that RPC; the verb handed to BindingMiddleware (which decides whether a body is read) is the same verb
+//@ func (g *Generator) generateService(gf *protogen.GeneratedFile, file *protogen.File, service *protogen.Service) (err error)
+//@   requires service != nil
+//@   modifies *
+//@   at-call P:config.mux.Handle( requires route_as_decided: line == "config.mux.Handle(\"" + g.getHTTPMethod(method) + " " + g.getMethodPath(method, g.getServiceBasePath(service), file.GoPackageName) + "\", " + annotations.LowerFirst(method.GoName) + "Handler)"
+//@   at-call "P:", config.errorHandler," requires middleware_verb_as_decided: line == "\"" + g.getHTTPMethod(method) + "\", config.errorHandler,"
+//@   loop 2 invariant count("P:config.mux.Handle(") == old(count("P:config.mux.Handle(")) + _i2
+//@   ensures one_route_per_rpc: err == nil ==> count("P:config.mux.Handle(") == old(count("P:config.mux.Handle(")) + len(service.Methods)
 
 //@ func (g *Generator) generateFlattenFile(file *protogen.File) (err error)
 //@   ensures err == nil ==> spec.AllOK_flatten(file.Messages)
@@ -221,82 +305,32 @@ package httpgen
 //@ func collectTimestampFormatMessages(messages []*protogen.Message, contexts *[]*TimestampFormatContext)
 //@   modifies contexts
 //@   decreases spec.depth(messages)
+// every collected context has a field to convert, and only such fields (C13: the file's imports are used)
+//@   ensures contexts_convert: (forall k int :: 0 <= k && k < len(old(*contexts)) ==> old(*contexts)[k] != nil && len(old(*contexts)[k].TimestampFields) > 0 && (forall j int :: 0 <= j && j < len(old(*contexts)[k].TimestampFields) ==> old(*contexts)[k].TimestampFields[j] != nil && spec.convertedTs(old(*contexts)[k].TimestampFields[j].Format))) ==> (forall k int :: 0 <= k && k < len(*contexts) ==> (*contexts)[k] != nil && len((*contexts)[k].TimestampFields) > 0 && (forall j int :: 0 <= j && j < len((*contexts)[k].TimestampFields) ==> (*contexts)[k].TimestampFields[j] != nil && spec.convertedTs((*contexts)[k].TimestampFields[j].Format)))
+//@   loop 1 invariant (forall k int :: 0 <= k && k < len(old(*contexts)) ==> old(*contexts)[k] != nil && len(old(*contexts)[k].TimestampFields) > 0 && (forall j int :: 0 <= j && j < len(old(*contexts)[k].TimestampFields) ==> old(*contexts)[k].TimestampFields[j] != nil && spec.convertedTs(old(*contexts)[k].TimestampFields[j].Format))) ==> (forall k int :: 0 <= k && k < len(*contexts) ==> (*contexts)[k] != nil && len((*contexts)[k].TimestampFields) > 0 && (forall j int :: 0 <= j && j < len((*contexts)[k].TimestampFields) ==> (*contexts)[k].TimestampFields[j] != nil && spec.convertedTs((*contexts)[k].TimestampFields[j].Format)))
 
-//@ func collectEnumsFromMessage(msg *protogen.Message, contexts *[]*EnumEncodingContext, seen map[string]bool)
-//@   modifies contexts
-//@   decreases spec.mdepth(msg)
-
-// whether a root-unwrap map's value message is itself unwrapped (the combined form {"k": [...]}) is a property of that
-// value message alone - decided by its own annotation, wherever it is declared - not of the table of this invocation
-//@ func collectRootUnwrapMessages(messages []*protogen.Message, unwrapMessages map[string]*annotations.UnwrapFieldInfo, ctx *UnwrapContext)
-//@   requires ctx != nil
-//@   modifies ctx
-//@   decreases spec.depth(messages)
-//@   ensures only_appends: len(ctx.RootUnwrapMessages) >= old(len(ctx.RootUnwrapMessages)) && (forall k int :: 0 <= k && k < old(len(ctx.RootUnwrapMessages)) ==> ctx.RootUnwrapMessages[k] == old(ctx.RootUnwrapMessages[k]))
-//@   ensures value_unwrap_by_annotation: forall k int :: old(len(ctx.RootUnwrapMessages)) <= k && k < len(ctx.RootUnwrapMessages) ==> ctx.RootUnwrapMessages[k] != nil && (ctx.RootUnwrapMessages[k].ValueMessage != nil ==> ((ctx.RootUnwrapMessages[k].ValueUnwrap != nil) <==> spec.hasValidUnwrap(ctx.RootUnwrapMessages[k].ValueMessage)))
-//@   loop 1 invariant len(ctx.RootUnwrapMessages) >= old(len(ctx.RootUnwrapMessages)) && (forall k int :: 0 <= k && k < old(len(ctx.RootUnwrapMessages)) ==> ctx.RootUnwrapMessages[k] == old(ctx.RootUnwrapMessages[k]))
-//@   loop 1 invariant forall k int :: old(len(ctx.RootUnwrapMessages)) <= k && k < len(ctx.RootUnwrapMessages) ==> ctx.RootUnwrapMessages[k] != nil && (ctx.RootUnwrapMessages[k].ValueMessage != nil ==> ((ctx.RootUnwrapMessages[k].ValueUnwrap != nil) <==> spec.hasValidUnwrap(ctx.RootUnwrapMessages[k].ValueMessage)))
-
-//@ func collectUnwrapFieldsRecursive(messages []*protogen.Message, result map[string]*annotations.UnwrapFieldInfo) (err error)
-//@   decreases spec.depth(messages)
-
-//@ func findMapFieldsWithUnwrap(messages []*protogen.Message, unwrapMessages map[string]*annotations.UnwrapFieldInfo, ctx *UnwrapContext)
-//@   modifies ctx
-//@   decreases spec.depth(messages)
-
-//@ func (g *Generator) collectMessageFieldExamples(gf *protogen.GeneratedFile, message *protogen.Message, prefix string)
-//@   decreases spec.mdepth(message)
-
-// on-stack set of message types being expanded: a nested call sees a strictly larger set (finitely many full
-// names exist), and every call restores the set it was given
-//@ func (g *Generator) generateMockFieldAssignments(gf *protogen.GeneratedFile, message *protogen.Message, varName string, visiting map[string]bool)
-//@   requires message != nil
-//@   modifies *, visiting
-//@   decreases 2*spec.remainingB(visiting) + 1
-//@   ensures restored: forall s string :: (inDom(visiting, s) && visiting[s]) <==> (inDom(old(visiting), s) && old(visiting)[s])
-//@   ensures measure: spec.remainingB(visiting) == spec.remainingB(old(visiting))
-//@   loop 1 invariant forall s string :: (inDom(visiting, s) && visiting[s]) <==> (s == key || (inDom(old(visiting), s) && old(visiting)[s]))
-//@   loop 1 invariant spec.remainingB(visiting) < spec.remainingB(old(visiting))
-
-//@ func (g *Generator) generateMockMapFieldAssignment(gf *protogen.GeneratedFile, field *protogen.Field, varName string, visiting map[string]bool)
-//@   requires field != nil && field.Message != nil && field.Desc.IsMap()
-//@   modifies *, visiting
-//@   decreases 2*spec.remainingB(visiting) + 2
-//@   ensures restored: forall s string :: (inDom(visiting, s) && visiting[s]) <==> (inDom(old(visiting), s) && old(visiting)[s])
-//@   ensures measure: spec.remainingB(visiting) == spec.remainingB(old(visiting))
-
-// ---- the unwrap table is only a cache (C15): which map fields get unwrap code depends on the definitions of the
-// value messages alone, not on which files were scanned into the table ----
-
-//@ func getMapValueMessage(field *protogen.Field) (r *protogen.Message)
+//@ func hasTimestampFormatFields(message *protogen.Message) (r bool)
 //@   pure
-//@   existing
+//@   ensures r == spec.hasTsCodecField(message)
+//@   loop 1 invariant forall k int :: 0 <= k && k < _i1 ==> !spec.needsTsCodec(message.Fields[k])
 
-//@ func collectUnwrapMapFields(msg *protogen.Message, unwrapMessages map[string]*annotations.UnwrapFieldInfo) (r []*UnwrapMapField)
-//@   requires msg != nil
-//@   opaque annotations.GetUnwrapField
-//@   ensures count_whatever_the_table: spec.tableSound(unwrapMessages) ==> len(r) == spec.countUnwraps(msg, len(msg.Fields))
-//@   ensures sound_whatever_the_table: spec.tableSound(unwrapMessages) ==> (forall j int :: 0 <= j && j < len(r) ==> r[j] != nil && member(msg.Fields, r[j].Field) && spec.unwrapsMapValue(r[j].Field))
-//@   loop 1 invariant spec.tableSound(unwrapMessages) ==> len(mapFields) == spec.countUnwraps(msg, _i1)
-//@   loop 1 invariant spec.tableSound(unwrapMessages) ==> (forall j int :: 0 <= j && j < len(mapFields) ==> mapFields[j] != nil && member(msg.Fields, mapFields[j].Field) && spec.unwrapsMapValue(mapFields[j].Field))
+//@ func getTimestampFormatFields(message *protogen.Message) (r []*TimestampFormatFieldInfo)
+//@   ensures converted_only: forall j int :: 0 <= j && j < len(r) ==> r[j] != nil && spec.convertedTs(r[j].Format)
+//@   ensures nonempty: spec.hasTsCodecField(message) ==> len(r) > 0
+//@   loop 1 invariant forall j int :: 0 <= j && j < len(fields) ==> fields[j] != nil && spec.convertedTs(fields[j].Format)
+//@   loop 1 invariant (exists k int :: 0 <= k && k < _i1 && spec.needsTsCodec(message.Fields[k])) ==> len(fields) > 0
 
-// ---- per-route parameter tables (C02): one QueryParamConfig line per query-annotated field of every method's request,
-// whatever the field's kind or cardinality (the emitted binder handles lists) ----
-//@ func (g *Generator) generateParamConfigs(gf *protogen.GeneratedFile, service *protogen.Service) (err error)
-//@   requires service != nil
+//@ func collectTimestampFormatContext(file *protogen.File) (r []*TimestampFormatContext)
+//@   ensures contexts_convert: forall k int :: 0 <= k && k < len(r) ==> r[k] != nil && len(r[k].TimestampFields) > 0 && (forall j int :: 0 <= j && j < len(r[k].TimestampFields) ==> r[k].TimestampFields[j] != nil && spec.convertedTs(r[k].TimestampFields[j].Format))
+
+// the decoder of a converted field mentions package time; so does the decoder of a context with such a field
+//@ func (g *Generator) generateTimestampFieldUnmarshal(gf *protogen.GeneratedFile, fieldInfo *TimestampFormatFieldInfo)
 //@   modifies *
-//@   ensures every_query_field_listed: count("P:{QueryName: ") == old(count("P:{QueryName: ")) + spec.totalQueryParams(service.Methods, len(service.Methods))
-//@   loop 1 invariant count("P:{QueryName: ") == old(count("P:{QueryName: ")) + spec.totalQueryParams(service.Methods, _i1)
-//@   loop 2 invariant count("P:{QueryName: ") == old(count("P:{QueryName: ")) + spec.totalQueryParams(service.Methods, _i1)
-//@   loop 3 invariant count("P:{QueryName: ") == old(count("P:{QueryName: ")) + spec.totalQueryParams(service.Methods, _i1) + _i3 && len(queryParams) == len(annotations.GetQueryParams(service.Methods[_i1].Input))
+//@   ensures uses_time: spec.convertedTs(fieldInfo.Format) ==> count("P:time.") > old(count("P:time."))
+//@   ensures monotone: count("P:time.") >= old(count("P:time."))
 
-// ---- the registered route is the decided route (C03/C01: dataflow from the deciding functions to the emitted text) ----
-// every RPC gets exactly one mux.Handle line, and its pattern is "<verb> <path>" with the verb and path the deciding
-// functions return for that RPC; the verb handed to BindingMiddleware (which decides whether a body is read) is the same verb
-//@ func (g *Generator) generateService(gf *protogen.GeneratedFile, file *protogen.File, service *protogen.Service) (err error)
-//@   requires service != nil
+//@ func (g *Generator) generateTimestampFormatUnmarshalJSON(gf *protogen.GeneratedFile, ctx *TimestampFormatContext)
+//@   requires ctx != nil
 //@   modifies *
-//@   at-call P:config.mux.Handle( requires route_as_decided: line == "config.mux.Handle(\"" + g.getHTTPMethod(method) + " " + g.getMethodPath(method, g.getServiceBasePath(service), file.GoPackageName) + "\", " + annotations.LowerFirst(method.GoName) + "Handler)"
-//@   at-call "P:", config.errorHandler," requires middleware_verb_as_decided: line == "\"" + g.getHTTPMethod(method) + "\", config.errorHandler,"
-//@   loop 2 invariant count("P:config.mux.Handle(") == old(count("P:config.mux.Handle(")) + _i2
-//@   ensures one_route_per_rpc: err == nil ==> count("P:config.mux.Handle(") == old(count("P:config.mux.Handle(")) + len(service.Methods)
+//@   ensures uses_time: len(ctx.TimestampFields) > 0 && (forall j int :: 0 <= j && j < len(ctx.TimestampFields) ==> ctx.TimestampFields[j] != nil && spec.convertedTs(ctx.TimestampFields[j].Format)) ==> count("P:time.") > old(count("P:time."))
+//@   loop 2 invariant count("P:time.") >= old(count("P:time.")) && ((forall j int :: 0 <= j && j < len(ctx.TimestampFields) ==> ctx.TimestampFields[j] != nil && spec.convertedTs(ctx.TimestampFields[j].Format)) && _i2 > 0 ==> count("P:time.") > old(count("P:time.")))
